@@ -36,7 +36,7 @@ COMPONENTS = {
 RULE = ("plans = coin x puzzle kinds x m-of-n x key forms x hash types x key-supply mechanism x signing-pass order x "
         "transport encodings x tamper/revert/validate histories; non-trivial iff the run had >= 2 signing passes on one "
         "copy, a tamper followed by validation, a non-ALL hash type, or a key-store fault")
-FAULT_KINDS = ["stale_copy_signed", "duplicate_pass", "wrong_key_pass", "db_statement_error", "db_secrets_cleared",
+FAULT_KINDS = ["stale_copy_signed", "duplicate_pass", "wrong_key_pass", "scripts_withheld", "db_statement_error", "db_secrets_cleared",
                "tamper_field", "tamper_unlocking_data", "tamper_signature_hash_type", "tamper_unspent", "unspent_dropped", "revert"]
 PROBES = ["kind:p2pk", "kind:p2pkh", "kind:multisig", "kind:p2sh-multisig", "kind:p2wpkh", "kind:p2wsh-multisig",
           "kind:p2sh-p2wpkh", "kind:p2sh-p2wsh-multisig", "n>=16", "m>=10", "uncompressed_key", "hash_type_non_all",
@@ -205,6 +205,9 @@ def gen_plan(rng, tier, index, config=None):
             st = {"op": "sign", "copy": cp, "keys": ks, "supply": r.weighted([("dict", 5), ("wifs", 3), ("keychain", 3),
                                                                                 ("keychain_hd", 4 if hd else 0)]),
                   "hash_type": r.pick(hts), "inputs": None if r.chance(0.7) else [j for j in range(nin) if r.chance(0.6)]}
+            if st["supply"] in ("dict", "wifs") and r.chance(0.12):
+                # the cosigner's script table lacks the redeem / witness scripts of some inputs
+                st["withhold_scripts"] = [j for j in range(nin) if r.chance(0.6)] or [0]
             if st["supply"].startswith("keychain") and r.chance(0.25):
                 st["db_fault"] = r.between(1, 6)
             if st["supply"].startswith("keychain") and r.chance(0.1):
@@ -691,7 +694,7 @@ PLACEHOLDER = bytes.fromhex("3045022100fffffffffffffffffffffffffffffffebaaedce6a
                             "fffffffffffffffffffffffffffffff5d576e7357a4501ddfe92f46681b20a001")
 
 
-def _do_sign(ctx, W, tx, st, secrets):
+def _do_sign(ctx, W, tx, st, secrets, scripts=None):
     """run one signing pass on pycoin object tx; returns None or ('raised', ...)"""
     import sqlite3
     from pycoin.solve.utils import build_hash160_lookup, build_p2sh_lookup
@@ -702,11 +705,13 @@ def _do_sign(ctx, W, tx, st, secrets):
         kwargs["tx_in_idx_set"] = set(j for j in st["inputs"] if j < len(tx.txs_in))
     supply = st.get("supply", "dict")
     W.rec.signed.clear()
+    if scripts is None:
+        scripts = W.scripts
     try:
         if supply == "dict":
             ctx.probe("supply_dict")
             lookup = build_hash160_lookup(secrets, [W.rec])
-            tx.sign(lookup, p2sh_lookup=build_p2sh_lookup(W.scripts), **kwargs)
+            tx.sign(lookup, p2sh_lookup=build_p2sh_lookup(scripts), **kwargs)
         elif supply == "wifs":
             ctx.probe("supply_wifs")
             wifs = []
@@ -716,7 +721,7 @@ def _do_sign(ctx, W, tx, st, secrets):
                     if key["d"] == d:
                         comp = key["compressed"]
                 wifs.append(W.net.keys.private(d, is_compressed=comp).wif())
-            W.net.tx_utils.sign_tx(tx, wifs=wifs, p2sh_lookup=build_p2sh_lookup(W.scripts), **kwargs)
+            W.net.tx_utils.sign_tx(tx, wifs=wifs, p2sh_lookup=build_p2sh_lookup(scripts), **kwargs)
         else:
             reuse = bool(st.get("reuse_keychain"))
             if reuse and getattr(W, "kc", None) is not None:
@@ -801,7 +806,20 @@ def _op_sign(ctx, W, st):
     before_v = _verdicts(W, cp)
     snap_before = cp.obj.as_bin(include_unspents=True) if not cp.obj.missing_unspents() else None
     faulted = bool(st.get("db_fault") or st.get("clear_secrets")) and str(st.get("supply")).startswith("keychain")
-    res = _do_sign(ctx, W, cp.obj, st, secrets)
+    withheld = set()
+    scripts = None
+    if st.get("withhold_scripts") and str(st.get("supply")) in ("dict", "wifs"):
+        need = {}
+        for j_, spec_ in enumerate(cp.specs):
+            _, red_, ws_ = _puzzle(W, spec_)
+            need[j_] = [x for x in (red_, ws_) if x is not None]
+        gone = set(x for j_ in st["withhold_scripts"] if j_ in need for x in need[j_])
+        withheld = set(j_ for j_, xs in need.items() if xs and any(x in gone for x in xs))
+        if withheld:
+            scripts = [x for x in W.scripts if x not in gone]
+            ctx.fault("scripts_withheld")
+            ctx.nontrivial = True
+    res = _do_sign(ctx, W, cp.obj, st, secrets, scripts)
     m2, u2 = _read_obj(cp.obj)
     ht_req = st.get("hash_type") or 1
     if ht_req != 1:
@@ -883,6 +901,8 @@ def _op_sign(ctx, W, st):
             continue  # the recorded spent script was tampered with: the keys no longer match the puzzle
         listed = list(spec["keys"])
         K = set(i for i, k in enumerate(listed) if k in supplied)
+        if j in withheld:
+            K = set()   # without the redeem / witness script the keys are of no use for this input
         S_old, S_new = set(bv.signed), set(av.signed)
         m = spec["m"]
         if faulted:
@@ -1031,7 +1051,10 @@ def _op_validate(ctx, W, st):
         from pycoin.coins.SolutionChecker import ScriptError
         for j, v in enumerate(verdicts):
             u = cp.u[j] if j < len(cp.u) else None
-            if v.valid is None and u is not None:
+            if v.valid is None or u is None:
+                # (with the spent output unknown this low-level entry runs the unlocking script against an empty puzzle, on
+                # purpose: the script annotator traces through it.  The "never reported valid" guard the property names sits in
+                # is_solution_ok / bad_solution_count, which are judged below)
                 continue
             try:
                 cp.obj.check_solution(j, flags=flags)
@@ -1040,13 +1063,9 @@ def _op_validate(ctx, W, st):
                 got = False
             except Exception as e:
                 got = None
-                if u is not None:
-                    ctx.violate("C06", "validation-raised", {"input": j, "exc": type(e).__name__, "msg": str(e)[:160], "when": "check_solution"})
+                ctx.violate("C06", "validation-raised", {"input": j, "exc": type(e).__name__, "msg": str(e)[:160], "when": "check_solution"})
             ctx.probe("check_solution_entry")
-            if u is None:
-                if got is True:
-                    ctx.violate("C06", "valid-without-spent-output", {"input": j, "entry": "check_solution"})
-            elif got is not None and got != v.valid:
+            if got is not None and got != v.valid:
                 ctx.violate("C06", "standard-verdict-mismatch", {"input": j, "pycoin": got, "model": v.valid, "why": v.why, "kind": v.kind,
                                                                 "when": "check_solution", "signed": list(v.signed)})
     # unknown spent output => never valid
